@@ -1,7 +1,7 @@
 """Property checks that are decided by theorems about AM/ABS plus the sequential
 correspondence engine.  Each entry: the workloads (profile, nseq, nops, disk size)
 per tier and the failure kinds that belong to the property."""
-import os, json
+import os, re, json
 import vlib, seqengine
 from vlib import Failure
 
@@ -40,6 +40,35 @@ def run(ctx, prop, ps, gen_bad):
             if own:
                 fails.append(Failure(prop, own[0][0], st_['proc'], own[0][1], replay=dict(header=hdr, ops=ops, corpus=name)))
                 break
+    # probes of the open findings: each recorded defect is shown again on every run (KNOWN-FINDING); a probe whose
+    # defect has gone only leaves a note in the evidence
+    pdir = os.path.join(vlib.V, 'probes')
+    gone = []
+    for fn in sorted(os.listdir(pdir)) if os.path.isdir(pdir) else []:
+        if not fn.endswith('.ops'):
+            continue
+        hdr, ops = vlib.read_ops(os.path.join(pdir, fn))
+        if prop not in hdr.get('props', '').split(','):
+            continue
+        steps, done, res = vlib.judge_ops(hdr, ops, 'probe')
+        tot['steps'] += len(steps)
+        shown = False
+        for st_ in steps:
+            cands = []
+            if st_['panic'] or not st_['reply'] or st_['nabs'] or st_['nwf'] or not st_['alloc'] or not st_.get('trace', 1):
+                cands += vlib.classify_all(st_)
+                if st_['panic'] and res.get('panic'):
+                    cands = [('panic', res['panic'][:200])]
+            m_ = re.search(r'note=(\S+)', st_.get('detail') or '')
+            if m_ and 'count-not-clamped' in m_.group(1):
+                cands.append(('memory', m_.group(1)))
+            cands = [c for c in cands if c[0] in seqengine.KINDS[prop] or c[0] in ('panic', 'memory')]
+            if cands:
+                fails.append(Failure(prop, cands[0][0], st_['proc'], cands[0][1], replay=dict(header=hdr, ops=ops, probe=fn)))
+                shown = True
+                break
+        if not shown:
+            gone.append(fn)
     for k, (profile, nseq, nops, size) in enumerate(WORKLOADS[prop]['quick' if ctx.quick else 'thorough']):
         fs, st = seqengine.run_profile(ctx, prop, profile, nseq, nops, size, seed_off=k * 7919, survive_only=(prop == 'C11'),
                                       # C06 judges each call's own lock events and whether it returns: a disagreement with the
@@ -71,7 +100,7 @@ def run(ctx, prop, ps, gen_bad):
                     'wf_disk = [], in-memory allocators = on-disk bitmaps); non-trivial = distinct (sequence, step) whose call was executed and agreed',
                samples=samples, sequences=tot['sequences'], sequences_cut_short=tot['cut'], op_histogram=tot['hist'],
                status_histogram=errkinds, failures_owned_by_other_properties=tot['foreign'][:10],
-               unreproduced_observations=tot['unreproduced'][:10],
+               unreproduced_observations=tot['unreproduced'][:10], finding_probes_without_effect=gone,
                traces_validated_against_impl=tot['sequences'])
     return fails, cov
 
